@@ -97,13 +97,20 @@ def cases(ctx, n, thorough):
         if i % 6 == 1:
             # short fragments of much longer sequences: the final rows of the fragments carry leading / trailing / internal gap runs of 64+ columns
             alpha_ = gen.AA if kind == "protein" else (gen.RNA if kind == "rna" else gen.DNA)
-            Lf = rng.choice([200, 300, 420])
-            fullf = gen.family(rng, kind, rng.randint(2, 4), Lf, sub=0.1, indel=0.02, spice=False)
+            Lf = rng.choice([200, 300, 420, 700, 900])
+            fullf = gen.family(rng, kind, rng.randint(2, 4), Lf, sub=0.1, indel=(0.02 if Lf < 600 else 0.0), spice=False)
             recs = list(fullf)
             for _ in range(rng.randint(2, 4)):
                 src_ = rng.choice(fullf)[1]
                 a0 = rng.randint(70, max(71, len(src_) - 100))
+                if Lf >= 600:
+                    a0 = rng.randint(520, max(521, len(src_) - 100))      # leading gap runs of more than 500 columns in the fragment's row
                 frag_ = src_[a0:a0 + rng.randint(40, 90)]
+                if rng.random() < 0.6:
+                    # a relative of the full sequences with an insertion exactly where the fragment begins (or ends): the columns a later merge
+                    # inserts into the finished group then start right in front of the fragment's first (behind its last) residue
+                    at_ = a0 if rng.random() < 0.7 else a0 + len(frag_)
+                    recs.append(("ins%d" % len(recs), src_[:at_] + gen.rand_seq(rng, alpha_, rng.randint(4, 20)) + src_[at_:]))
                 if rng.random() < 0.4 and len(src_) > a0 + 200:
                     frag_ = frag_[:20] + src_[a0 + 120:a0 + 160]          # a fragment with an internal deletion of ~100 residues
                 recs.append(("frag%d" % len(recs), gen.mutate(rng, frag_, alpha_, 0.05, 0.0)))
@@ -180,6 +187,11 @@ def run(ctx):
     diffs = C.pipeline_correspondence(ctx, kvh, [3 * ctx.seed + 1000] if ctx.quick else [3 * ctx.seed + 1000 + 30 * k for k in range(4)])
     for c in cs:
         ctx.evaluations += 1
+        if c.infiles and not c.crashed and c.rc != 0 and "different alphabets" in (c.stderr or ""):
+            # records split over files whose own classes differ: the recorded finding C04-split-class (the reader refuses the combination), no
+            # alignment is made and nothing is re-aligned
+            ctx.count("split_files_rejected_(C04-split-class)")
+            continue
         if c.crashed or c.rc != 0:
             fails.append(("run failed/crashed: %s" % c.status, c, None))
             continue
